@@ -743,7 +743,7 @@ func c04Gen(c *Ctx) {
 }
 
 func init() {
-	Register(&Prop{ID: "C04", Num: 4, SpecMode: "rel", Gen: c04Gen, Impl: c04Impl,
+	Register(&Prop{ID: "C04", Pure: true, Num: 4, SpecMode: "rel", Gen: c04Gen, Impl: c04Impl,
 		Shrink: c04Shrink, Describe: c04Describe,
 		Rule: "values v*1000+id with v in 0..4 compared on v only (ties everywhere). exhaustive: every op sequence up to the tier's length over boundary alphabets (Push/Pop/Peek/Remove/Fix/SetFix/ReInit/PopAll, indices -1..9; for Heap: two heaps, live/stale/foreign/unknown handles, PushElement, Init) from several initial heaps; random: 3-60 ops, Slice / generic functions / Heap handles; deep heaps (12-60 elements over keys 0..99, Remove/Fix/SetFix at inner positions, drain); generic functions outside their contract (wild index, Pop on empty: panics must agree with the model); Heap index field overwritten (panic branch). Compared exactly after every op: results, Slice.Values / container, Index() of every handle. distinct = distinct case; non-trivial = at least 3 (exhaustive: 2) operations of at least 2 kinds"})
 }
